@@ -174,12 +174,13 @@ func (a *VerifC18Adm) Connected(h int) bool { return a.peers[h].Connected() }
 // Add delivers the peer to the real handleAddPeerMsg.
 func (a *VerifC18Adm) Add(h int) bool { return a.s.handleAddPeerMsg(a.state, a.peers[h]) }
 
-// Done delivers the peer to the real handleDonePeerMsg.  As in production (peerDoneHandler sends
-// on donePeers only after WaitForDisconnect returned) the peer is disconnected first.
-func (a *VerifC18Adm) Done(h int) {
-	a.peers[h].Disconnect()
-	a.s.handleDonePeerMsg(a.state, a.peers[h])
-}
+// Done delivers the peer to the real handleDonePeerMsg.  The handler does not read or change the
+// peer's connected flag; in production peerDoneHandler sends on donePeers only after
+// WaitForDisconnect returned, which scripts express by a preceding Disconnect.
+func (a *VerifC18Adm) Done(h int) { a.s.handleDonePeerMsg(a.state, a.peers[h]) }
+
+// Disconnect drops the peer's connection (what a remote close or a protocol error does).
+func (a *VerifC18Adm) Disconnect(h int) { a.peers[h].Disconnect() }
 
 // Ban delivers a peer object with address ip:port to the real handleBanPeerMsg.
 func (a *VerifC18Adm) Ban(ip string, port int) error {
